@@ -2,3 +2,14 @@ import Rpki.Props.C03
 #print axioms Rpki.C03.containsItem_iff
 #print axioms Rpki.C03.canon_unique
 #print axioms Rpki.C03.eq_iff_same_set
+#print axioms Rpki.C03.fromIter_canon_den
+#print axioms Rpki.C03.isEncompassed_iff
+#print axioms Rpki.C03.trim_spec
+#print axioms Rpki.C03.difference_spec
+#print axioms Rpki.C03.union_spec
+#print axioms Rpki.C03.inter_spec
+#print axioms Rpki.C03.verifyIssued_subset
+#print axioms Rpki.C03.containsBlock_iff
+#print axioms Rpki.C03.intersectsBlock_iff
+#print axioms Rpki.C03.asnCount_spec
+#print axioms Rpki.C03.intoPrefix_sound_partial
